@@ -73,6 +73,18 @@ CHECKS = {
    text="Control.tla is the state machine of the control API (never started / running / stopping / stopped x Validate, CountConnections, Dup, DupListener, Register variants, Execute, Enroll, Stop with live and expired contexts); TLC checks monotonicity and enumerates all call sequences up to length 4, each of which is replayed on a real engine with the result class compared; Stop(nil)-only-after-full-shutdown is also checked on the recorded shutdown races (TrLife.tla).",
    note="Known finding KF-2 (Register during shutdown never yields a result) is reported as such. The poll interval of Engine.Stop is shortened through its package variable for the replay.",
    tech="TLA+ spec + TLC exhaustive; transition-cover replay of the TLC state graph on real engines; trace validation against TrLife.tla"),
+ "C05": dict(cat="model_checking", ref="DESIGN.md §4 C05",
+   text="Confinement is decided by TrLife.tla on recorded executions: every callback event carries the goroutine and the loop, and TLC checks that all callbacks of one loop run on one goroutine, that a connection never changes loops and that asynchronous callbacks run on the owning loop. Freedom from data races cannot be decided by a model that only sees hooked events: as an adjunct oracle the same scenarios plus an API hammer (SafeContext/SetSafeContext, Fd, Dup, socket options, CountConnections, Execute, Wake, Engine.Dup during start/stop) run under the Go race detector with the recorder off and a plain per-loop word written in every callback.",
+   note="The race half is an adjunct (race detector on provoked schedules), named as such. Register with the RoundRobin balancer is documented as racy and not exercised.",
+   tech="trace validation against TrLife.tla (TLA+ trace specification checked by TLC); adjunct: Go race detector"),
+ "C08": dict(cat="model_checking", ref="DESIGN.md §4 C08",
+   text="UDP engines ({udp, udp4, udp6} x IPv4/IPv6 loopback x {1, 3 loops} x {default, poll_opt}) receive datagrams of sizes 0..65507 from several senders with at most 4 in flight each; the handler consumes none / part / all and answers with Write and/or SendTo(another sender). The recorded execution is validated by TrUdp.tla: one OnTraffic per datagram (at most once always, exactly once at quiescence), payload and boundaries intact, InboundBuffered = payload length, no carry-over after partial consumption, RemoteAddr = sender, every reply exactly once, intact, at the socket it was addressed to.",
+   note="At-least-once relies on loopback not dropping with little in flight. Datagrams larger than the read buffer are outside the statement.",
+   tech="trace validation against TrUdp.tla (TLA+ trace specification checked by TLC)"),
+ "C18": dict(cat="fault_enumeration", ref="DESIGN.md §4 C18",
+   text="One system-call fault per engine life is injected with strace into the event-loop thread (pinned with WithLockOSThread): {read, write, writev, epoll_ctl, epoll_wait, accept4} x errno x call index x {LT, ET}, while bystander connections carry checked traffic and a probe connection tests liveness afterwards. The recorded executions are validated by TrLife.tla (the failing connection is closed exactly once with an error, a write that reports an error has closed the connection, retryable errnos leave no trace, engine keeps running), TrIn/TrOut (bystanders' streams intact) and TrFd (descriptor released once).",
+   note="close(2), fatal accept errnos and non-EINTR epoll_wait errors are not injected (fatal by design / would fake leaks). Needs ptrace permission for strace; without it the check reports a machinery failure, not a verdict.",
+   tech="strace fault enumeration on the real engine; trace validation against TrLife / TrIn / TrOut / TrFd (TLA+ trace specifications checked by TLC)"),
 }
 NOT_YET = {}
 for i in range(1, 21):
